@@ -63,10 +63,11 @@ PROPS.update({
               "networkx-based projections themselves are outside the deductive engine; every clause of the statement is evaluated on all small hypergraphs (and directed ones) of a stated scope and on "
               "seeded random ones, for all 12 (distance, threshold, weighted) configurations.", "DESIGN.md §7 C10"),
     "C05": dict(level="exploration",
-                technique="contract-based deductive verification (AST->VC, z3) of Hypergraph.subhypergraph / subhypergraph_by_orders / copy + bounded run-time contract checking of every extraction route",
+                technique="contract-based deductive verification (AST->VC, z3) of Hypergraph.subhypergraph / subhypergraph_by_orders (sizes and orders) / subhypergraph_largest_component / copy and of get_edges(subhypergraph=True) of Hypergraph and DirectedHypergraph + bounded run-time contract checking of every extraction route",
                 text=("The induced sub-hypergraph, the extraction by sizes and copy() carry contracts (exactly the selected hyperedges with original weights and metadata, "
                       "documented node set with original node metadata, same weightedness, source unmodified) discharged for all inputs through loop invariants over the "
-                      "contracted add_edge/add_nodes/set_*_metadata; get_edges(subhypergraph=True), the largest component and copy-independence are covered by the bounded tier."),
+                      "contracted add_edge/add_edges/add_nodes/set_*_metadata (get_edges(subhypergraph=True): positional pairing of hyperedges and weights through add_edges' fold contract); the largest component "
+                      "is the induced sub-hypergraph of a largest class of the same filter (assumed _bfs contract); copy-independence and every route once more are covered by the bounded tier."),
                 design_ref="DESIGN.md §7 C05", assumptions=["copy.deepcopy: equal value, no sharing (assumed library contract; independence checked in the bounded tier)"]),
     "C11": _b("bounded run-time contract checking of the motif census against brute-force enumeration of all 3-/4-node subsets, relabelling and insertion-order invariance",
               "Closures over mutable dictionaries, recursion and itertools put the census outside the deductive engine, and the property is a global counting identity: it is checked on "
@@ -103,10 +104,10 @@ PROPS.update({
               "Floating point / numpy code: bounded exploration over all connected hypergraphs on <= 5 nodes and all initial conditions, horizons and rate triples of a stated grid.",
               "DESIGN.md §7 C18"),
     "C19": dict(level="exploration",
-                technique="contract-based deductive verification (AST->VC, z3) of filter_hypergraph on Hypergraph over the verified remove_node/remove_edge + bounded run-time contract checking incl. get_svh",
-                text=("filter_hypergraph (keep_edges=False) on a Hypergraph is proved to leave exactly the nodes and hyperedges the statement names and to change nothing else about the "
-                      "survivors, with the criteria matcher as an uninterpreted predicate. The matcher itself, keep_edges=True, the temporal/multiplex call shapes and get_svh "
-                      "(pandas/scipy) are covered by the bounded tier."), design_ref="DESIGN.md §7 C19",
+                technique="contract-based deductive verification (AST->VC, z3) of filter_hypergraph on all four container types over their verified remove_node/remove_edge + bounded run-time contract checking incl. get_svh",
+                text=("filter_hypergraph (keep_edges=False) on a Hypergraph, DirectedHypergraph, TemporalHypergraph and MultiplexHypergraph is proved to leave exactly the nodes and hyperedges "
+                      "the statement names and to change nothing else about the survivors, with the criteria matcher as an uninterpreted predicate. The matcher itself, keep_edges=True "
+                      "(iterated shrinking) and get_svh (pandas/scipy) are covered by the bounded tier."), design_ref="DESIGN.md §7 C19",
                 assumptions=["matches_criteria is a pure total function of (metadata, criteria); its definition is checked in the bounded tier"]),
     "C20": _b("bounded run-time contract checking of the centralities against networkx on independently built projections, expm, and eigen-equation residuals",
               "Floating point and networkx delegation: bounded exploration only. CEC/HEC are judged only where an independent long-run iteration converges.", "DESIGN.md §7 C20"),
